@@ -6,8 +6,9 @@ E = "LLBuild.Engine."
 
 class Check(EngineCheck):
     prop = "C07"
-    module = "LLBuild.Props.C07"
+    module = "LLBuild.Props.C07All"
     theorems = [E + "C07_lasso", E + "C07_empty_report_only_when_root_complete", E + "C07_wait_for_is_real", E + "C07_parked_dep", E + "C07_failure_has_cause", E + "C07_cycle_never_succeeds", E + "Clean_not_cyclic",
+                "LLBuild.Refine.refinement_final", "LLBuild.Refine.EngineImpl_sound_C07_cycle", "LLBuild.Refine.EngineImpl_sound_C05_quiescent",
                 E + "engine_fingerprint_matches_model"]
     mix = [(0.4, {"cyclic": True}), (0.3, {"cyclic": True, "malformed": True}), (0.15, {"cyclic": True, "cancel": True}), (0.15, {})]
     budget = (300, 3000)
